@@ -21,6 +21,7 @@ CLAIMS = {
                  "every stdlib read is inside the error catcher; the catcher translates every low-level root into a urllib3 HTTPError, closes "
                  "before releasing and releases at most once; urlopen hands only urllib3 exceptions to the retry policy; BaseException "
                  "handlers re-raise; pool close drains and closes; HTTPConnection.close clears the socket on every path. "
+                 "Every socket urllib3 creates itself (create_connection, the IPv6 probe) is closed on every path on which it is not returned, configuring helpers included (C01-R12). "
                  "Declined: the N-slot invariant over a whole request *sequence* (follows by induction, stated not checked); byte-level socket state."),
         "note": _TRUST + "Interrupts are modelled at call sites (A2); close() used as cleanup does not raise (A3). Three genuine defects found by "
                 "these rules are listed as known findings (F1b, F1c, F3); F1a was repaired in /repo.",
@@ -59,7 +60,8 @@ CLAIMS = {
                  "own counter (when not None), returns the new object after testing it for exhaustion; a read error is re-raised unless "
                  "read is not False, method known and allowed (both directions); ProtocolError/ReadTimeoutError select the gated read "
                  "branch, consulted before `other`; default allow-list is idempotent; Retry-After honoured only under "
-                 "respect_retry_after_header and a response. Declined: counter arithmetic (< vs <=, exact attempt counts)."),
+                 "respect_retry_after_header and a response. Declined: counter arithmetic (< vs <=, exact attempt counts)."
+                 " Every low-level failure that can follow the sending of request bytes reaches increment(error=...) as a class the policy gates as a read error, or as ProxyError on the proxy arm (C04-R13)."),
         "note": _TRUST + "F11 (proxy classification reads state reset by close()) is a known finding; error->category mapping for SSLError after send follows upstream ('other').",
         "technique": "static analysis: provenance tags through abstract interpretation of the request drivers, decision-table extraction on Retry.is_retry/increment, min/max shape algebra, write-set queries",
     },
@@ -72,7 +74,8 @@ CLAIMS = {
                  "give budget 0 and raise_on_redirect False; on status==303 - and only there - the resend is GET, body None, headers "
                  "through _prepare_for_method_change (which drops the content headers); on exhaustion MaxRetryError is re-raised only "
                  "under raise_on_*, after drain_conn(), else the response is returned; the manager resends to urljoin(url, location); "
-                 "REDIRECT_STATUSES is {301,302,303,307,308}. Declined: counting redirects against the numeric budget."),
+                 "REDIRECT_STATUSES is {301,302,303,307,308}. Declined: counting redirects against the numeric budget."
+                 " Every resend - redirect or retry - is made under the caller's redirect and assert_same_host flags."),
         "note": _TRUST + "F4 (manager ignored constructor-level retries) was repaired in /repo.",
         "technique": "static analysis: sibling cross-check of both urlopen drivers by abstract interpretation with provenance tags and recorded decisions",
     },
@@ -100,7 +103,8 @@ CLAIMS = {
                  "the verified socket and is_verified its verdict (False via forwarding proxy); the server name is tunnel host / host / "
                  "configured override, dot-stripped, and all TLS settings handed over are the connection's own; nothing but a verification "
                  "result is stored into is_verified/proxy_is_verified; unverified => InsecureRequestWarning; pyOpenSSL callback returns "
-                 "err_no == 0; a hostname mismatch re-raises. Declined: the handshake and chain validation (OpenSSL), string forms of cert_reqs."),
+                 "err_no == 0; a hostname mismatch re-raises. Declined: the handshake and chain validation (OpenSSL), string forms of cert_reqs."
+                 " The OS default trust store is added only when no CA was configured and the context is urllib3's own (C07-R11); which subject-name kinds may satisfy which kind of host is shared from C08-R4."),
         "note": _TRUST + "ssl.SSLContext(PROTOCOL_TLS_CLIENT) defaults (check_hostname on, CERT_REQUIRED) are taken from the documentation.",
         "technique": "static analysis: decision-table extraction over a finite input partition by abstract interpretation; event-order typestate; provenance tags",
     },
@@ -128,7 +132,8 @@ CLAIMS = {
                  "order is proxy TLS (https proxy) -> _tunnel() -> origin wrap, tls_in_tls exactly on the https arm, proxy TLS verified "
                  "against the proxy's host with the proxy_config assertions; HTTPS pools dial the proxy; CONNECT targets the "
                  "bracket-preserving _tunnel_host and the pool's port; the manager passes the absolute URL iff proxy without tunnel, else "
-                 "request_uri. Declined: bytes received by proxy and origin."),
+                 "request_uri. Declined: bytes received by proxy and origin."
+                 " Inside a tunnel the origin handshake is verified with the connection's own assertions, never the proxy's; set_tunnel does not rewrite the recorded CONNECT target."),
         "note": _TRUST + "http.client's _tunnel()/set_tunnel are trusted for the CONNECT exchange itself. F11 (C04-R8, shared) is a known finding.",
         "technique": "static analysis: decision-table extraction, taint/provenance through abstract interpretation of the drivers, event-order typestate in connect()",
     },
@@ -169,7 +174,8 @@ CLAIMS = {
                  "codec is advertised, constructed and error-mapped under one guard; flush_decoder is true exactly for read-all or a "
                  "sized read that returned no data; stream() loops until the stdlib response is closed and the queue is empty; "
                  "readinto/iteration/.data go through the same readers. Declined (most of the statement): equality of concatenations over "
-                 "arbitrary call sequences, the read(n) size contract, segmentation independence."),
+                 "arbitrary call sequences, the read(n) size contract, segmentation independence."
+                 " A sized take from the decoded-byte queue always follows a put or a size test (C12-R10); the raw reader never closes the stdlib response early with a piece in hand (C13-R1, shared)."),
         "note": _TRUST + "zlib/zstandard decompressobj API typestate is a small frozen table (single-use after eof for zstd; unused_data for zlib). F7b (read_chunked yields past the queue) is a known finding; F7 (read) and F8 (zstd frame boundary) were repaired.",
         "technique": "static analysis: provenance typestate of delivered bytes by abstract interpretation, API-typestate of decoder objects with object-invariant entry state, structural queries",
     },
@@ -183,7 +189,8 @@ CLAIMS = {
                  "DecodeError, an incomplete zstd frame raises at flush, only trailing gzip garbage after a full member is ignored; "
                  "conflicting Content-Length raises InvalidHeader (not a ValueError), chunked ignores length; unclean exits close the "
                  "connection (shared C01-R5/R6); preload and .data use read(); enforce_content_length defaults to True and is forwarded "
-                 "at every hop. Declined: enumeration over every cut position."),
+                 "at every hop. Declined: enumeration over every cut position."
+                 " The raw reader itself never ends a good body early, and an early release never recycles the connection of an unfinished body (C03-R8, shared)."),
         "note": _TRUST + "http.client's _safe_read raising IncompleteRead is read from its source. F12 (read1 without amount) was repaired.",
         "technique": "static analysis: decision-table extraction on _raw_read, exceptional-path typestate on the chunk parser, handler/lattice queries",
     },
@@ -196,6 +203,7 @@ CLAIMS = {
                  "http/https is lower-cased or guarded by a digits-and-dots pattern, schemes lowered in parse_url and Url(); the port "
                  "reaches the result only after the 0..65535 test and its group admits at most five significant digits; none of the 13 "
                  "compiled patterns has a super-linear backtracking shape; loops over the input contain no quadratic idiom. "
+                 "What the patterns accept as a percent-escape is '%' plus two ASCII hex digits (C14-R8). "
                  "Declined: idempotence/re-parse equality, percent-encoding normal form, agreement with a reference parser on every string."),
         "note": _TRUST + "TypeError raised by to_str on non-str input is outside the quantifier (strings).",
         "technique": "static analysis: regex structure and backtracking-shape analysis on folded patterns, exception-funnel check over the call closure, must-pass-through def-use",
@@ -278,7 +286,8 @@ CLAIMS = {
                  "name=\"<escaped>\"; every part is written as delimiter line, rendered headers, data, CRLF on every path, followed by "
                  "exactly one closing delimiter; str data goes through the UTF-8 writer and bytes are written raw; the header block ends "
                  "with an empty line; one boundary definition reaches every delimiter and the returned content type; request_encode_body "
-                 "sends that body with that content type. Declined: parsing the output back (byte-level round trip)."),
+                 "sends that body with that content type. Declined: parsing the output back (byte-level round trip)."
+                 " Each part owns a fresh header mapping (C20-R6) and a Mapping of fields is always read pair by pair (C20-R7)."),
         "note": _TRUST + "Custom header_formatter callables supplied by the caller are outside the claim (deprecated extension point).",
         "technique": "static analysis: sanitizer-on-every-flow def-use, folded escape table, event-order typestate over the encoder loop",
     },
